@@ -2,6 +2,8 @@ package rules
 
 import (
 	"go/ast"
+	"go/constant"
+	"regexp"
 	"go/token"
 	"go/types"
 	"strings"
@@ -11,7 +13,7 @@ import (
 
 func init() {
 	Register("C14", "Decides, on the per-byte summaries of every state function of the schema-side scanners (notations/jschema/scanner, rules/enum): (nl) LF and CR have identical rows in every state, so the newline convention cannot change the lexeme stream; (blank) in every between-token state SPACE and TAB have identical rows; (norm) rule names are compared only after TrimSpaces().Unquote(), so quoted and bare rule names mean the same; (deleg) re-dispatch of one byte between states terminates. (space) a skipped blank leaves no trace; (style) every test for one annotation opener is paired with the test for the other. Does NOT decide equality of AST/example/OpenAPI across spellings.",
-		c14nl, c14blank, c14space, c14norm, c14style)
+		c14nl, c14blank, c14space, c14norm, c14style, c14nlre)
 }
 
 var schemaScanners = []string{"notations/jschema/scanner", "rules/enum"}
@@ -400,5 +402,38 @@ func c14style(c *core.Ctx) {
 				return true
 			})
 		}
+	}
+}
+
+// c14nlre: constant regular expressions treat LF and CR, SPACE and TAB alike.
+func c14nlre(c *core.Ctx) {
+	const R = "C14.nlre"
+	c.Rule(R, "every constant pattern given to regexp.MustCompile / regexp.Compile in scope is compiled by the analyser (the pattern, not the program, is evaluated) and must match the one-byte strings \"\\n\" and \"\\r\" alike, and \" \" and \"\\t\" alike: a blank-folding expression that knows LF but not CR renders the note of a CRLF file with stray carriage returns in the OpenAPI description")
+	c.Floor(R, 1)
+	n := 0
+	for _, cs := range c.P.Calls() {
+		name := core.FullName(core.Callee(cs.Pkg, cs.Call))
+		if name != "regexp.MustCompile" && name != "regexp.Compile" || len(cs.Call.Args) != 1 {
+			continue
+		}
+		v := core.ConstOf(cs.Pkg, cs.Call.Args[0])
+		if v == nil || v.Kind() != constant.String {
+			continue
+		}
+		pat := constant.StringVal(v)
+		n++
+		fn := core.DeclName(cs.Pkg, cs.Decl)
+		if cs.Decl == nil {
+			fn = core.Rel(cs.Pkg.PkgPath) + ".<package var>"
+		}
+		key := core.F("%s:%s", fn, pat)
+		pos := c.P.Pos(cs.Call.Pos())
+		re, err := regexp.Compile(pat)
+		if err != nil {
+			c.Bad(R, key, pos, "constant pattern "+pat, "does not compile: "+err.Error())
+			continue
+		}
+		ok := re.MatchString("\n") == re.MatchString("\r") && re.MatchString(" ") == re.MatchString("\t")
+		c.Check(ok, R, key, pos, "constant pattern `"+pat+"` treats LF/CR and SPACE/TAB alike", core.F("matches LF:%v CR:%v SPACE:%v TAB:%v - texts that differ only in the newline convention or in the kind of blank are transformed differently", re.MatchString("\n"), re.MatchString("\r"), re.MatchString(" "), re.MatchString("\t")))
 	}
 }
